@@ -37,6 +37,13 @@ S6_REGEX = {
 }
 
 
+def _all_symbols(syms):
+    for sy in syms:
+        yield sy
+        if getattr(sy, "group", None):
+            yield from _all_symbols(sy.group)
+
+
 def op_symbols(g, rule_name):
     """operator nonterminal → {terminal text: Operator variant}"""
     r = g.rules.get(rule_name)
@@ -53,6 +60,33 @@ def op_symbols(g, rule_name):
         if not act.startswith("Operator::"):
             return None
         out[t["pattern"]] = act.split("::", 1)[1].strip()
+    return out
+
+
+def op_symbols_deep(g, rule_name, seen=()):
+    """like op_symbols, but alternatives may delegate to other operator nonterminals (`XOperator => <>`)"""
+    r = g.rules.get(rule_name)
+    if not r or rule_name in seen:
+        return None
+    out = {}
+    for a in r.alts:
+        if len(a.symbols) != 1 or a.symbols[0].kind != "nt":
+            return None
+        ref = a.symbols[0].ref
+        act = a.action.strip()
+        t = g.terminal_pattern(ref)
+        if t and not t["regex"] and act.startswith("Operator::"):
+            sub = {t["pattern"]: act.split("::", 1)[1].strip()}
+        elif ref in g.rules and act in ("<>", ""):
+            sub = op_symbols_deep(g, ref, seen + (rule_name,))
+            if sub is None:
+                return None
+        else:
+            return None
+        for k, v in sub.items():
+            if k in out and out[k] != v:
+                return None
+            out[k] = v
     return out
 
 
@@ -129,6 +163,19 @@ def run(ck, fx, cg, tier):
             tab, dflt = literal_to_value_table(fx, fb)
             inv_ok = tab is not None and all(tab.get(s) == ("path", v) for v, s in as_str.items())
             ck.ob("R7.spelling", "From<&str> inverts as_str", inv_ok, loc(fb), "From<&str> table is the inverse of as_str on %d spellings: %s" % (len(as_str), inv_ok))
+    # the operator *names* of `a.op(b)` and `function op (x)` come from the nonterminal `Operator`: the same table
+    uses = [(rn, a.line) for rn, r in g.rules.items() for a in r.alts for sy in _all_symbols(a.symbols) if sy.kind == "nt" and sy.ref == "Operator"]
+    if uses:
+        om = op_symbols_deep(g, "Operator")
+        r_op = g.rules.get("Operator")
+        where = "src/fml.lalrpop:%s" % (r_op.line if r_op else "?")
+        if om is None:
+            ck.ob("R7.spelling", "Operator nonterminal", False, where, "`Operator` (used by %s) is not a table of terminals / operator nonterminals (unprovable)" % sorted({u[0] for u in uses}))
+        else:
+            diff = {t: (om.get(t), all_ops.get(t)) for t in set(om) | set(all_ops) if om.get(t) != all_ops.get(t)}
+            ck.ob("R7.spelling", "Operator nonterminal", not diff, where,
+                  "method-call and definition forms name the 13 operators as the infix forms do" if not diff else
+                  "`a.op(b)` / `function op (x)` name operators differently from infix `a op b` (terminal: (named, infix)): %s" % diff)
     # ---------------------------------------------------------------- left fold (HIR)
     _left_fold(ck, fx)
     # ---------------------------------------------------------------- sugar
